@@ -54,14 +54,16 @@ func renderChild() {
 	out := os.Stdout
 	os.Stdout = devnull
 	res := renderResult{}
-	plate, _ := sdf.Box3D(v3.Vec{X: 8, Y: 8, Z: 0.7}, 0)
+	// a tilted block with a bounding box of about equal extent on all axes, so that a y/z layer
+	// at >= 110 cells has more than (100 + one per worker) batches of 100 points
+	plate, _ := sdf.Box3D(v3.Vec{X: 8, Y: 8, Z: 8}, 0.5)
 	tilted := sdf.Transform3D(plate, sdf.RotateX(0.3).Mul(sdf.RotateY(0.2)))
 	sph, _ := sdf.Sphere3D(1)
 	blk, _ := sdf.Box3D(v3.Vec{X: 2, Y: 1.6, Z: 1.2}, 0.1)
 	cyl, _ := sdf.Cylinder3D(2, 0.7, 0.1)
 
 	// large layer: more than (queue capacity + workers) batches per layer
-	for _, cells := range []int{118, 131} {
+	for _, cells := range []int{112, 131} {
 		name := fmt.Sprintf("large-layer/mcu%d", cells)
 		res.Cases = append(res.Cases, name)
 		runtime.GOMAXPROCS(1)
